@@ -77,8 +77,9 @@ def NEntry.rlp (e : NEntry) : Bytes :=
   | .cn c => encC c
   | .raw b => b
 
+/-- `diskdb.Put(k, v)`: the store is a map, an existing key is overwritten -/
 def diskPut (disk : List (Bytes × Bytes)) (k v : Bytes) : List (Bytes × Bytes) :=
-  if (disk.lookup k).isSome then disk.map (fun e => if e.1 == k then (k, v) else e) else disk ++ [(k, v)]
+  disk.filter (fun e => e.1 != k) ++ [(k, v)]
 
 mutual
 /-- `db.commit(hash, batch)`: children first, then the node (fuel = depth bound) -/
@@ -106,9 +107,9 @@ def uncacheList : Nat → List (Bytes × NEntry) → List Bytes → List (Bytes 
   | f, mem, c :: cs => uncacheList f (uncacheRec f mem c) cs
 end
 
-/-- `NodeDatabase.Commit(node)` (no write fault) -/
-def NDb.commit (db : NDb) (root : Bytes) : NDb :=
-  { mem := uncacheRec (db.mem.length + 1) db.mem root, disk := commitRec db.mem (db.mem.length + 1) db.disk root }
+/-- `NodeDatabase.Commit(node)` (no write fault); `F` bounds the depth of the walk -/
+def NDb.commit (db : NDb) (F : Nat) (root : Bytes) : NDb :=
+  { mem := uncacheRec F db.mem root, disk := commitRec db.mem F db.disk root }
 
 /-- `NodeDatabase.Node(hash)`: the blob, from the memory cache or from disk -/
 def NDb.blob (db : NDb) (h : Bytes) : Option Bytes :=
